@@ -56,6 +56,19 @@ def _grid_case(seed, i):
     if rng.random() < 0.3:
         o["follow_perpendicular_rtol"] = rng.choice((2e-8, 1e-6))
         o["follow_perpendicular_atol"] = rng.choice((1e-8, 1e-6))
+    if i % 10 == 2:
+        # stratum: the other interpolant with worker processes (the double nulls of this
+        # workload are refused with dct, so use a single null)
+        case = FS.make_case(rng, s, kind="worker", entry=("api-tok", "geqdsk")[(i // 10) % 2],
+                            geom=("lsn", "usn")[(i // 20) % 2])
+        case["fault"].update({"buggify": None, "clock": None, "sub": "fallback"})
+        case["np"] = 2 + (i // 10) % 3
+        case["options"].pop("refine_timeout", None)
+        o = case["options"]
+        o["refine_methods"] = ["integrate+newton", "integrate"]
+        o["psi_interpolation_method"] = "dct"
+    elif case["geometry"] in ("lsn", "usn") and rng.random() < 0.25:
+        o["psi_interpolation_method"] = "dct"
     if case["geometry"] in ("cdn", "udn", "ldn") and rng.random() < 0.35:
         o["orthogonal"] = False
     if entry in ("circular", "api-circ") and rng.random() < 0.35:
